@@ -111,6 +111,10 @@ func cmdEmit(args []string) {
 					}
 					return uint32(e.Rng.Int63n(int64(n)))
 				}
+				if kind >= 3 {
+					e.FailAtRead, e.FailGot = 1+e.Rng.Intn(3*L+1), e.Rng.Intn(4)
+					ev.Tag = sc.Tag + "+source-failure"
+				}
 				var alpha []int
 				text = capture(func() {
 					alpha = CPs(r.Alphabet())
@@ -152,6 +156,10 @@ func cmdEmit(args []string) {
 					}
 					return uint32(e.Rng.Int63n(int64(n)))
 				}
+				if kind >= 2 { // the random source fails somewhere inside the generation
+					e.FailAtRead, e.FailGot = 1+e.Rng.Intn(2*sc.WL.Len+2), e.Rng.Intn(4)
+					ev.Tag = sc.Tag + "+source-failure"
+				}
 				text = capture(func() {
 					r, wl, berr = sc.WL.Build(nil) // NewWordList: the duplicate notice is part of the captured output
 					if berr != nil {
@@ -179,6 +187,7 @@ func cmdEmit(args []string) {
 				ev.Chars = distinctive(all)
 			}
 			e.Policy = nil
+			e.FailAtRead = 0
 			ev.Res = res.Kind
 			if res.Kind == "ok" && len(res.Str) >= 4 {
 				ev.Secrets = append(ev.Secrets, res.Str)
